@@ -182,7 +182,13 @@ class RangeV:
             n = z3.If(b > a, b - a, 0)
         else:
             n = z3.If(b > a, (b - a + s - 1) / s, 0)
-        return n, (lambda i: IntV(a + i * s))
+        def at(i):
+            if z3.is_int_value(s) and s.as_long() == 1:
+                if z3.is_int_value(a) and a.as_long() == 0:
+                    return IntV(i)
+                return IntV(a + i)
+            return IntV(a + i * s)
+        return n, at
 
     def contains(self, eng, st, x):
         r = eng.as_int(x, st)
@@ -216,6 +222,11 @@ def _gen_domain(eng, st, gen: ast.comprehension):
         r = z3.Int(fresh_name('q'))
         _assign_target(eng, st, gen.target, IntV(r), env)
         return [r], z3.Select(it.term, r), env
+    if isinstance(it.meta, RangeV) and z3.is_int_value(it.meta.s) and it.meta.s.as_long() == 1:
+        # quantify over the element itself (clean trigger), not over an offset from the start
+        r = z3.Int(fresh_name('q'))
+        _assign_target(eng, st, gen.target, IntV(r), env)
+        return [r], z3.And(r >= it.meta.a, r < it.meta.b), env
     n, at = eng.iter_sequence(it, st)
     j = z3.Int(fresh_name('q'))
     _assign_target(eng, st, gen.target, at(j), env)
@@ -670,8 +681,14 @@ def _sqrt(eng, st, args, kwargs):
     (x,) = args
     _, _, rt = eng.num_parts(x, st)
     eng.require(st, rt >= 0, 'ValueError', 'math domain error')
-    s = eng.fresh(KReal, 'sqrt')
-    eng.fact(st, z3.And(s.term >= 0, s.term * s.term == rt))
+    return RealV(sqrt_term(eng, st, rt))
+
+
+def sqrt_term(eng, st, rt):
+    f = eng.uf_cache.setdefault('sqrt_fn', z3.Function('sqrt_fn', z3.RealSort(), z3.RealSort()))
+    s = f(rt)
+    eng.fact(st, z3.Implies(rt >= 0, z3.And(s >= 0, s * s == rt)))
+    eng.assumptions.add('math.sqrt(x) is the non-negative real s with s*s == x (exact real arithmetic)')
     return s
 
 
@@ -875,3 +892,20 @@ def _reg_bwd(eng, st, recv, args, kwargs):
     cur = eng.read_field(st, recv, 'bwd_hooks', cls='Module')
     eng.write_field(st, recv, 'bwd_hooks', IntV(cur.term + 1), cls='Module')
     return NONE
+
+
+@builtin('reversed')
+def _reversed(eng, st, args, kwargs):
+    (x,) = args
+    if isinstance(x.kind, KList):
+        lo = ListOps(x.kind)
+        n = lo.len(x.term)
+        r = eng.fresh(x.kind, 'rev')
+        j = z3.Int(fresh_name('j'))
+        eng.fact(st, lo.len(r.term) == n)
+        eng.fact(st, Vm.forall([j], z3.Implies(z3.And(j >= 0, j < n), lo.at(r.term, j) == lo.at(x.term, n - 1 - j)),
+                               patterns=[lo.at(r.term, j)]))
+        return r
+    if isinstance(x.kind, KTuple):
+        return TupV(list(reversed(tuple_items(x))))
+    raise Unsupported(f'reversed of {x.kind!r}')
